@@ -83,6 +83,13 @@ func genBigBulk(job *Job, prop string, seed, idx uint64) *RunOutcome {
 			rf.Ops = append(rf.Ops, Op{K: "CreateIndex", Coll: coll, Field: f})
 		}
 	}
+	if job.Params["export"] == "1" {
+		// a large collection exported and imported back (the file is written and read in pieces by some implementations)
+		rf.Ops = append(rf.Ops, Op{K: "Export", Coll: coll, File: "big.json"}, Op{K: "Import", Coll: "big2", File: "big.json"})
+		if r.Bool() {
+			rf.Ops = append(rf.Ops, Op{K: "Import", Coll: coll, File: "big.json"}) // existing name: must fail, nothing changes
+		}
+	}
 	lit := func(x int64) *model.Operand { return &model.Operand{Lit: val.Wrap(x)} }
 	crit := func() *model.Crit {
 		switch r.Intn(7) {
